@@ -516,6 +516,9 @@ def corpus_charts():
     return out
 
 
+_LAST_CD = [None]   # the chart-data object of the chart created last (for the reuse-and-grow step)
+
+
 def _new_chart(case):
     from pptx import Presentation
     from pptx.enum.chart import XL_CHART_TYPE
@@ -524,6 +527,7 @@ def _new_chart(case):
 
     ct = getattr(XL_CHART_TYPE, case["type"])
     cd = cdm.build(case["data"])
+    _LAST_CD[0] = cd
     if case.get("via") == "placeholder":
         prs = Presentation(io.BytesIO(_ph_deck_bytes()))
         ph = None
@@ -646,6 +650,52 @@ def execute(case, report):
         baseline = xsd_records(blob)          # corpus charts: no new errors
         root = etree.fromstring(blob)
         idx_ok = check_idx_order(root, {"idx": False, "order": False}, "corpus", report)
+    # the SAME chart-data object, grown by categories / points, written again ("rolling report" idiom)
+    if case["mode"] == "gen" and case.get("grow"):
+        import copy as _copy
+        cur = _copy.deepcopy(case["data"])
+        cd = _LAST_CD[0]
+        flat = (cur["kind"] == "category" and cur["categories"] and cur["series"]
+                and all(not kids for _lb, kids in cur["categories"]))
+        for gi, k in enumerate(case["grow"]):
+            if cur["kind"] == "category":
+                if not flat:
+                    break
+                for j in range(k):
+                    first = cur["categories"][0][0] if cur["categories"] else "x"
+                    import datetime as _dt
+                    n = 10 * gi + j
+                    if isinstance(first, _dt.datetime):
+                        label = _dt.datetime(2031, 1, 1) + _dt.timedelta(days=n)
+                    elif isinstance(first, _dt.date):
+                        label = _dt.date(2031, 1, 1) + _dt.timedelta(days=n)
+                    elif isinstance(first, bool) or not isinstance(first, (int, float)):
+                        label = "grown %d.%d" % (gi, j)
+                    elif isinstance(first, int):
+                        label = 900000 + n
+                    else:
+                        label = 900000.5 + n
+                    cd.add_category(label)
+                    cur["categories"].append([label, []])
+                    for si, srs in enumerate(cd):
+                        v = float(100 * gi + 10 * j + si)
+                        srs.add_data_point(v)
+                        cur["series"][si]["values"].append(v)
+            else:
+                if not cur["series"]:
+                    break
+                si = gi % len(cur["series"])
+                for j in range(k):
+                    p = [1000.0 * (gi + 1) + j, -(2.5 + j)] + ([j + 1.0] if cur["kind"] == "bubble" else [])
+                    cd[si].add_data_point(*p)
+                    cur["series"][si]["points"].append(p)
+            try:
+                with core.sut("C07:replace_data"):
+                    chart.replace_data(cd)
+            except Violation as v:
+                report(v.key, v.message)
+                break
+            root, recs, idx_ok = _observe(chart, cur, baseline, idx_ok, "replace", report, requested_type=ct)
     for desc in case["replacements"]:
         if case.get("decorate"):
             _decorate(chart, case["decorate"])
@@ -766,6 +816,7 @@ def _gen_strategy(type_name):
         "data": cdm.chart_data(kind, min_series=min_series),
         "replacements": st.lists(cdm.chart_data(kind, min_series=1), min_size=0, max_size=4),
         "decorate": st.sampled_from([0, 0, 1, 3, 5, 9, 15]),
+        "grow": st.one_of(st.just([]), st.just([]), st.lists(st.sampled_from([1, 2, 3]), min_size=1, max_size=2)),
     })
 
 
